@@ -10,6 +10,7 @@ import importlib
 import itertools
 import json
 import pickle
+import resource
 import multiprocessing
 import os
 import signal
@@ -25,6 +26,7 @@ EVIDENCE_DIR = os.environ.get("VERIF_EVIDENCE_DIR") or os.path.join(VERIF, "evid
 REPLAY_DIR = os.environ.get("VERIF_REPLAY_DIR") or os.path.join(VERIF, "replays")
 KNOWN_FINDINGS = os.path.join(VERIF, "known_findings.json")
 RUN_TIMEOUT_S = 60
+CHILD_MEMORY_LIMIT = 2 << 30
 BATCH_WATCHDOG_S = 900
 
 
@@ -82,6 +84,9 @@ def in_child(function, *args):
         status = 0
         try:
             os.close(read_end)
+            # a run that tries to allocate gigabytes must fail with MemoryError (an outcome the oracles can
+            # judge) instead of getting the whole check killed by the kernel
+            resource.setrlimit(resource.RLIMIT_AS, (CHILD_MEMORY_LIMIT, CHILD_MEMORY_LIMIT))
             try:
                 payload = pickle.dumps(("ok", function(*args)))
             except BaseException:  # noqa: B902 - reported to the parent
